@@ -472,12 +472,14 @@ def spineOp (inst : List Str) : Pat → Bool
   | _ => false
 
 /-- instruction-level elements of the capture spine: un-repeated items whose operands are literal
-names or operand captures, and instruction captures -/
+names or operand captures, instruction captures, and - between them - any capture-free pattern of the
+literal fragment (repeated items, `$and` / `$or` / `$not` / `$and_any_order` groups with `times`):
+those leave the bindings untouched -/
 def spineItem (inst : List Str) : Pat → Bool
-  | .mnem name ops t => litName name && decide (t = Times.one) && ops.all (spineOp inst)
+  | .mnem name ops t => (litName name && decide (t = Times.one) && ops.all (spineOp inst)) || litI (.mnem name ops t)
   | .capInstDef name => inst.contains name
   | .capInstRef _ => true
-  | _ => false
+  | p => litI p
 
 theorem semD_spineOp (fl : Flags) (caps inst : List Str) (T : Str) (p : Pat) (hp : spineOp inst p = true) (r : Rx)
     (hc : comp fl caps p = .ok r) : SemD (txtO T) OkO caps inst r (denO fl p) := by
@@ -627,15 +629,17 @@ theorem semD_spineItem (fl : Flags) (caps inst : List Str) (p : Pat) (hp : spine
     (hc : comp fl caps p = .ok r) : SemD encAll OkI caps inst r (denI fl p) := by
   cases p with
   | mnem name ops t =>
-    simp only [spineItem, Bool.and_eq_true, decide_eq_true_eq] at hp
-    obtain ⟨⟨hn, rfl⟩, hops⟩ := hp
-    simp only [comp, if_true] at hc
-    obtain ⟨os, hos, hr⟩ := bind_ok.mp hc
-    cases pure_ok.mp hr
-    have e : denI fl (.mnem name ops Times.one) = mnemDen fl name ops := by
-      funext σ L; simp only [denI, timesDen, if_true]; rfl
-    rw [e]
-    exact semD_mnem fl caps inst name ops os hn hos hops
+    simp only [spineItem, Bool.or_eq_true, Bool.and_eq_true, decide_eq_true_eq] at hp
+    rcases hp with hp | hlit
+    · obtain ⟨⟨hn, rfl⟩, hops⟩ := hp
+      simp only [comp, if_true] at hc
+      obtain ⟨os, hos, hr⟩ := bind_ok.mp hc
+      cases pure_ok.mp hr
+      have e : denI fl (.mnem name ops Times.one) = mnemDen fl name ops := by
+        funext σ L; simp only [denI, timesDen, if_true]; rfl
+      rw [e]
+      exact semD_mnem fl caps inst name ops os hn hos hops
+    · exact semD_of_sem caps inst (masterI fl caps _ hlit r hc)
   | capInstDef name =>
     simp only [spineItem] at hp
     simp only [comp] at hc
@@ -649,7 +653,11 @@ theorem semD_spineItem (fl : Flags) (caps inst : List Str) (p : Pat) (hp : spine
     obtain ⟨i, hi, rfl⟩ := capIndex_ok hn
     cases pure_ok.mp hr
     exact semD_capInstRef fl caps inst name i hi
-  | _ => simp [spineItem] at hp
+  | and l t => exact semD_of_sem caps inst (masterI fl caps _ (by simpa [spineItem] using hp) r hc)
+  | or l t => exact semD_of_sem caps inst (masterI fl caps _ (by simpa [spineItem] using hp) r hc)
+  | anyOrder l t => exact semD_of_sem caps inst (masterI fl caps _ (by simpa [spineItem] using hp) r hc)
+  | not q o t => exact semD_of_sem caps inst (masterI fl caps _ (by simpa [spineItem] using hp) r hc)
+  | _ => simp [spineItem, litI] at hp
 
 theorem semD_grp {α : Type} {txt : List α → Str} {Ok : List α → Prop} {caps inst : List Str} {r : Rx} {d : Den α}
     (h : SemD txt Ok caps inst r d) : SemD txt Ok caps inst (.grp r) d :=
